@@ -770,7 +770,41 @@ def scan_handle(lib, env):
     return h, handle_quals
 
 
+def extern_functions(lib):
+    """names of the C functions declared in the `cdef extern` blocks of the library's files"""
+    from common import REPO
+    names = set()
+    for rel in LIBS[lib]['decls']:
+        inext = False
+        for l in open(os.path.join(REPO, rel)).read().split('\n'):
+            if re.match(r'cdef extern from', l):
+                inext = True
+                continue
+            if not inext or not l.strip():
+                continue
+            if not l.startswith((' ', '\t')):
+                inext = False
+                continue
+            m = re.match(r'\s+(?:[\w\.\*]+\s+)+\*?\s*(\w+)\(', l)
+            if m:
+                names.add(m.group(1))
+    return names
+
+
+def check_extern(lib):
+    """fail closed on library functions this translator has never seen: whether a call hands
+    over an ALREADY REFERENCED node (`OWNED`) is a fact about the C library that is recorded by
+    hand, so a new extern declaration must be classified in translator/extern_known.json first"""
+    known = json.load(open(os.path.join(os.path.dirname(os.path.abspath(__file__)), 'extern_known.json')))
+    new = sorted(extern_functions(lib) - set(known[lib]))
+    if new:
+        raise TranslationError(
+            f'{LIBS[lib]["file"]}: library function(s) {new} are not in translator/extern_known.json: '
+            'say there (and in OWNED of gen_cref.py if so) whether they return an already referenced node')
+
+
 def scan_lib(lib):
+    check_extern(lib)
     env = LibEnv(lib)
     cfg = LIBS[lib]
     fillers = compute_fillers(env, lib)
